@@ -37,8 +37,11 @@ def body_factory(shape, cfg, seed):
 
 
 def reference(shape, seed):
-    before()
-    return body_factory(shape, (1, 0, 0), seed)()
+    """The in-process run, executed in the state of a FRESH interpreter (sched.execute installs import-time values for all process-global
+    state incl. class/module-level containers): what earlier experiments of this worker left behind must not leak into the reference."""
+    ex = sched.execute(body_factory(shape, (1, 0, 0), seed), (), 'low', before=before)
+    if not ex.result or ex.result[0] != 'ok': raise HarnessError(f'reference run of {shape} failed: {ex.result!r}')
+    return ex.result[1]
 
 
 def diff(ref, got):
